@@ -19,6 +19,8 @@ def impl_parse(text, props=False):
         return {'ok': O.dump_db(db)}
     except O.OutOfModel as e:
         return {'err': 'outOfModel:' + str(e)}
+    except O.NotADatabase as e:
+        return {'err': 'internal:NotADatabase(' + str(e) + ')'}
 
 
 def impl_parse_job(job):
